@@ -82,17 +82,25 @@ HDR_BITS_REQ = 16 | 64
 HDR_BITS_RESP = 1 | 2 | 16 | 32
 
 
+def _outcome(txt):
+    import re
+    m = re.search(r'outcome: (\w+)', txt) or re.match(r'\s*(?:Ok\()?(\w+)', txt)
+    return m.group(1) if m else ''
+
+
 def relevant(prop, f):
     """is this concrete disagreement a violation of `prop`?  (family, stage, oracle parts, config bits)"""
+    ro, eo = _outcome(f.get('real', '')), _outcome(f.get('expected', ''))
+    accepts_forbidden = ('status' in f.get('oracle', '').split('+')) and eo in ('Err', 'Invalid') and ro not in ('Err',)
     fam, stage, orc, cfg = f.get('family'), f.get('stage'), f.get('oracle', ''), f.get('cfg', 0)
     hdr_opts = cfg & (HDR_BITS_REQ if fam == 'request' else HDR_BITS_RESP if fam == 'response' else 0)
     parts = orc.split('+')
     if prop == 'C09':
         return fam == 'chunk'
     if prop == 'C06':
-        return fam == 'request' and stage == 'startline' and parts != ['error-kind']
+        return fam == 'request' and (stage == 'startline' or any(x in parts for x in ('method', 'path', 'version'))) and parts != ['error-kind']
     if prop == 'C07':
-        return fam == 'response' and stage == 'startline' and parts != ['error-kind']
+        return fam == 'response' and (stage == 'startline' or any(x in parts for x in ('version', 'code', 'reason'))) and parts != ['error-kind']
     if prop == 'C08':
         return stage == 'headers' and hdr_opts == 0 and parts != ['error-kind']
     if prop == 'C14':
@@ -100,16 +108,17 @@ def relevant(prop, f):
     if prop == 'C10':
         return 'error-kind' in parts or 'TooManyHeaders' in f.get('real', '') + f.get('expected', '')
     if prop == 'C12':
-        return f.get('gen') == 'lane-sweep'
+        return f.get('gen') == 'lane-sweep' or accepts_forbidden
     if prop == 'C05':
-        return f.get('gen') == 'lane-sweep' or any(x in parts for x in ('method', 'path', 'reason', 'headers', 'code', 'version'))
+        # a byte the grammar forbids was accepted (or not yet rejected), or a reported field differs
+        return accepts_forbidden or f.get('gen') == 'lane-sweep' or any(x in parts for x in ('method', 'path', 'reason', 'headers', 'code', 'version'))
     if prop == 'C17':
         return any(x in parts for x in ('headers-len-restore', 'untouched-slots')) or 'TooManyHeaders' in f.get('real', '') + f.get('expected', '') or f.get('gen') == 'capacity'
     if prop == 'C03':
         return 'status' in parts and ('Complete' in f.get('real', '') or 'Complete' in f.get('expected', ''))
     if prop in ('C02', 'C11'):
         # a status disagreement where one side says Partial: Partial is returned although the oracle already decides, or vice versa
-        return 'status' in parts and (('Partial' in f.get('real', '').split(',')[0]) != ('Partial' in f.get('expected', '').split(',')[0]))
+        return 'status' in parts and ((ro == 'Partial') != (eo == 'Partial'))
     if prop == 'C04':
         return any(x in parts for x in ('method', 'path', 'reason', 'headers'))
     if prop == 'C16':
